@@ -161,3 +161,16 @@ Definition importer_exec_in_try : bool := false.
 Definition atom_cas_mode : N := 1%N.
 Definition delay_deref_mode : N := 1%N.
 Definition promise_shape : N := 1%N.
+
+(* ---- C19 (harness/tr/tr_codecs.py): copies of what the translator emits for the pinned tree ---- *)
+(* edn.lpy str-escape-chars: escape character -> character produced by the reader *)
+Definition edn_str_escape_chars : list (N * N) :=
+  [(34, 34); (92, 92); (97, 7); (98, 8); (102, 12); (110, 10); (114, 13); (116, 9); (118, 11)]%N.
+(* edn.lpy str-escape-chars-translation: character -> text the writer emits for it *)
+Definition edn_write_escapes : list (N * str) :=
+  [(92, [92; 92]); (34, [92; 34]); (7, [92; 97]); (8, [92; 98]); (12, [92; 102]); (10, [92; 110]);
+   (13, [92; 114]); (9, [92; 116]); (11, [92; 118])]%N.
+(* edn.lpy dispatch-chars (sorted) *)
+Definition edn_dispatch_chars : list N := [34; 40; 41; 58; 59; 91; 92; 93; 123; 125]%N.
+(* bencode.lpy: the byte literals decode* dispatches on, the list/dict terminator, the length separator *)
+Definition bencode_tokens : list N := [105; 108; 100; 101; 58]%N.
